@@ -358,6 +358,10 @@ def _node(draw, cfg, depth, gen, kinds=None):
                 else draw(_node(cfg, depth - 1, gen, kinds=["Element"]))
                 for i in range(n)
             ]
+        elif kind != "AllOf" and n > 1 and draw(st.integers(0, 3)) == 0:
+            # alternatives of one type (annotations de-duplicate to a plain type)
+            same = draw(st.sampled_from(["Integer", "Number", "String", "Array"]))
+            node["elements"] = [draw(_node(cfg, depth - 1, gen, kinds=[same])) for _ in range(n)]
         else:
             node["elements"] = [draw(sub_node()) for _ in range(n)]
     elif kind == "Not":
@@ -427,6 +431,63 @@ def _props_strategy(draw, cfg, depth, gen):
         })
     # a renamed property's python name must not be another property's source
     return props
+
+
+def twin(recipe, gen):
+    """Structurally identical copy with fresh ids and fresh class names (None if names run out)."""
+    new = copy.deepcopy(repair_refs(copy.deepcopy(recipe), index(recipe)))
+    ids = {}
+
+    def visit(node):
+        if isinstance(node, list):
+            return [visit(x) for x in node]
+        if not isinstance(node, dict):
+            return node
+        if "ref" in node and "kind" not in node:
+            return {"ref": ids[node["ref"]]}
+        out = {}
+        if "kind" in node and "id" in node:
+            ids[node["id"]] = gen.new_id()
+        for k, v in node.items():
+            if k == "id":
+                out[k] = ids[v]
+            elif k == "name" and node.get("kind") == "Object":
+                if not gen.class_names:
+                    raise IndexError("no class names left")
+                out[k] = gen.class_names.pop(0)
+            elif k in ("kw",):
+                out[k] = copy.deepcopy(v)
+            elif k == "base":
+                out[k] = visit(v)
+            else:
+                out[k] = visit(v) if isinstance(v, (dict, list)) else v
+        return out
+
+    # build order: base, sub, props, elements/element -> ids must be assigned before refs are seen
+    ordered = {}
+    for key in ("id", "kind", "name", "kw", "base", "sub", "props", "elements", "element"):
+        if key in new:
+            ordered[key] = new[key]
+    for key in new:
+        ordered.setdefault(key, new[key])
+
+    def order(node):
+        if isinstance(node, list):
+            return [order(x) for x in node]
+        if not isinstance(node, dict):
+            return node
+        if "kind" not in node:
+            return {k: order(v) for k, v in node.items()}
+        out = {}
+        for key in ("id", "kind", "name", "kw", "base", "sub", "props", "elements", "element"):
+            if key in node:
+                out[key] = order(node[key]) if key not in ("kw",) else node[key]
+        return out
+
+    try:
+        return visit(order(ordered))
+    except (IndexError, KeyError):
+        return None
 
 
 def repair_refs(new, old_index):
